@@ -150,7 +150,7 @@ def gen_cases(ctx, count, seed, extra=()):
 
 
 def run(ctx):
-    count = 100 if ctx.tier == "quick" else 3000
+    count = 100 if ctx.tier == "quick" else 2000
     cases = gen_cases(ctx, count, ctx.seed)
     mm, ns, ok = evaluate(ctx, cases, "c08")
     sm = []
